@@ -92,6 +92,7 @@ pub struct Plan {
   pub max_calls: usize,
   pub fault_at: Option<usize>,
   pub max_batch: usize,       // largest number of key events that arrive together (one readiness notification)
+  pub stall: Option<(usize, u64)>,   // (k, ms): every time-out really elapses, and the k-th TimedOut answer comes ms late (a stalled process)
 }
 
 pub struct SimDriver {
@@ -99,7 +100,7 @@ pub struct SimDriver {
   kfuture: VecDeque<Event>, kqueue: VecDeque<Event>, kready: bool, kends: bool, kgone: bool,
   tfuture: VecDeque<bool>, tqueue: VecDeque<bool>, tready: bool, tends: bool, tgone: bool,
   interrupts_left: usize, consecutive_ok: bool, last_was_interrupt: bool,
-  p_tick: u64, ticks_left: usize, spurious: bool, real_sleep: bool, slept_ns: u64,
+  p_tick: u64, ticks_left: usize, spurious: bool, real_sleep: bool, slept_ns: u64, stall: Option<(usize, u64)>, ticks_done: usize,
   max_calls: usize, fault_at: Option<usize>, max_batch: usize,
   pub recs: Vec<Rec>,
   pub unread_at_exit: usize,
@@ -112,7 +113,7 @@ impl SimDriver {
       kfuture: plan.khist.iter().cloned().collect(), kqueue: VecDeque::new(), kready: false, kends: plan.kends, kgone: false,
       tfuture: plan.thist.iter().cloned().collect(), tqueue: VecDeque::new(), tready: false, tends: plan.tends, tgone: false,
       interrupts_left: plan.max_interrupts, consecutive_ok: plan.consecutive_interrupts_ok, last_was_interrupt: false,
-      p_tick: plan.p_tick, ticks_left: plan.max_ticks, spurious: plan.spurious_idle_timeouts, real_sleep: plan.real_sleep, slept_ns: 0,
+      p_tick: plan.p_tick, ticks_left: plan.max_ticks, spurious: plan.spurious_idle_timeouts, real_sleep: plan.real_sleep, slept_ns: 0, stall: plan.stall, ticks_done: 0,
       max_calls: plan.max_calls, fault_at: plan.fault_at, max_batch: plan.max_batch,
       recs: vec![], unread_at_exit: 0,
     }
@@ -218,6 +219,12 @@ impl ScriptedDriver for SimDriver {
         Some(d) => {
           if self.ticks_left > 0 && (!more || self.rng.below(100) < self.p_tick as usize) {
             self.ticks_left -= 1;
+            self.ticks_done += 1;
+            if let Some((k, late_ms)) = self.stall {
+              // a process that is stopped or starved for a while: the time-out elapses for real, once it comes late
+              let extra = if self.ticks_done == k { late_ms } else { 0 };
+              std::thread::sleep(d.min(Duration::from_millis(80)) + Duration::from_micros(300) + Duration::from_millis(extra));
+            } else
             if self.real_sleep && d <= Duration::from_millis(15) && self.slept_ns < 200_000_000 {
               let extra = if self.rng.chance(1, 2) { 1 + self.rng.below(4) as u64 } else { 0 };
               std::thread::sleep(d + Duration::from_micros(300) + Duration::from_millis(extra));
@@ -529,6 +536,7 @@ fn make_cases(seed: u64, thorough: bool, scale: usize) -> Vec<CaseSpec> {
         max_calls: 400,
         fault_at: None,
         max_batch: 8,
+        stall: None,
       };
       cases.push(CaseSpec { tag: l.tag.clone(), mappings: l.mappings.clone(), plan, seed: cseed, inject_all: (li + r) % (if thorough { 4 } else { 9 }) == 0 });
     }
@@ -547,7 +555,7 @@ fn make_cases(seed: u64, thorough: bool, scale: usize) -> Vec<CaseSpec> {
         tends: false,
         max_interrupts: 1, consecutive_interrupts_ok: false,
         p_tick: 50, max_ticks: 10, spurious_idle_timeouts: true, real_sleep: false,
-        max_calls: 1500, fault_at: None, max_batch: 8,
+        max_calls: 1500, fault_at: None, max_batch: 8, stall: None,
       };
       cases.push(CaseSpec { tag: l.tag.clone(), mappings: l.mappings.clone(), plan, seed: cseed, inject_all: false });
     }
@@ -566,10 +574,25 @@ fn make_cases(seed: u64, thorough: bool, scale: usize) -> Vec<CaseSpec> {
         tends: false,
         max_interrupts: 0, consecutive_interrupts_ok: false,
         p_tick: 0, max_ticks: 3, spurious_idle_timeouts: false, real_sleep: false,
-        max_calls: 6000, fault_at: None, max_batch: [70usize, 130, 300, 1100][crng.below(4)],
+        max_calls: 6000, fault_at: None, max_batch: [70usize, 130, 300, 1100][crng.below(4)], stall: None,
       };
       cases.push(CaseSpec { tag: format!("{}/burst", l.tag), mappings: l.mappings.clone(), plan, seed: cseed, inject_all: false });
     }
+  }
+  // stalls: the repeat timer with real elapsed time; the k-th time-out comes 2.5 .. 5 intervals late.  The schedule must stay
+  // on the grid t0 + delay + j*interval (missed chords are caught up at once, later ones do not drift)
+  for r in 0..(if thorough { 8 } else { 3 }) {
+    let cseed = rng.next();
+    let mut crng = Rng::new(cseed);
+    let (d, i) = (20 + crng.below(30) as i32, 20 + crng.below(25) as i32);
+    let mappings = vec![Mapping { from: vec![key(A)], to: vec![key(B)],
+      repeat: Repeat::Special { keys: vec![key(F20)], delay_ms: d, interval_ms: i }, absorbing: vec![] }];
+    let k = 2 + crng.below(3);
+    let late = (i as u64) * (5 + crng.below(6) as u64) / 2;
+    let plan = Plan { khist: vec![Event::Pressed(key(A))], kends: false, thist: vec![], tends: false, max_interrupts: 0,
+      consecutive_interrupts_ok: false, p_tick: 100, max_ticks: k + 6, spurious_idle_timeouts: false, real_sleep: false,
+      max_calls: 200, fault_at: None, max_batch: 8, stall: Some((k, late)) };
+    cases.push(CaseSpec { tag: format!("fixed/stall-{}-{}ms", r, late), mappings, plan, seed: cseed, inject_all: false });
   }
   // negative interval: `next_wakeup + interval as u64` overflows Instant after about 500 ticks
   {
@@ -577,7 +600,7 @@ fn make_cases(seed: u64, thorough: bool, scale: usize) -> Vec<CaseSpec> {
       repeat: Repeat::Special { keys: vec![key(F20)], delay_ms: 400, interval_ms: -1 }, absorbing: vec![] }];
     let plan = Plan { khist: vec![Event::Pressed(key(A))], kends: false, thist: vec![], tends: false, max_interrupts: 0,
       consecutive_interrupts_ok: false, p_tick: 100, max_ticks: 600, spurious_idle_timeouts: false, real_sleep: false,
-      max_calls: 2000, fault_at: None, max_batch: 8 };
+      max_calls: 2000, fault_at: None, max_batch: 8, stall: None };
     cases.push(CaseSpec { tag: "fixed/negative-interval".to_string(), mappings, plan, seed: 77, inject_all: false });
   }
   // two consecutive interruptions make the real loop sleep 4 s: thorough tier only
@@ -585,7 +608,7 @@ fn make_cases(seed: u64, thorough: bool, scale: usize) -> Vec<CaseSpec> {
     let mappings = vec![Mapping { from: vec![key(A)], to: vec![key(B)], repeat: Repeat::Normal, absorbing: vec![] }];
     let plan = Plan { khist: vec![Event::Pressed(key(A)), Event::Released(key(A))], kends: true, thist: vec![], tends: false, max_interrupts: 2,
       consecutive_interrupts_ok: true, p_tick: 0, max_ticks: 0, spurious_idle_timeouts: false, real_sleep: false,
-      max_calls: 100, fault_at: None, max_batch: 8 };
+      max_calls: 100, fault_at: None, max_batch: 8, stall: None };
     for s in 0..6 { cases.push(CaseSpec { tag: "fixed/two-interrupts".to_string(), mappings: mappings.clone(), plan: plan_copy(&plan), seed: 1000 + s, inject_all: false }); }
   }
   cases
@@ -594,7 +617,7 @@ fn make_cases(seed: u64, thorough: bool, scale: usize) -> Vec<CaseSpec> {
 fn plan_copy(p: &Plan) -> Plan {
   Plan { khist: p.khist.clone(), kends: p.kends, thist: p.thist.clone(), tends: p.tends, max_interrupts: p.max_interrupts,
     consecutive_interrupts_ok: p.consecutive_interrupts_ok, p_tick: p.p_tick, max_ticks: p.max_ticks,
-    spurious_idle_timeouts: p.spurious_idle_timeouts, real_sleep: p.real_sleep, max_calls: p.max_calls, fault_at: p.fault_at, max_batch: p.max_batch }
+    spurious_idle_timeouts: p.spurious_idle_timeouts, real_sleep: p.real_sleep, max_calls: p.max_calls, fault_at: p.fault_at, max_batch: p.max_batch, stall: p.stall }
 }
 
 // tm-harness loop-script --out DIR --seed N --tier quick|thorough [--shards K] [--scale S]
